@@ -34,10 +34,10 @@ theorem idxV_of_true {c : CPc} {n : Nat}
 theorem ReplI_congr' (h : ReplI s) (h1 : s'.cfg = s.cfg) (h2 : s'.rAlive = s.rAlive) (h3 : s'.rAlive = true → s'.rpc ≠ .idle)
     (h4 : noneCount s'.replQ = noneCount s.replQ) (hp : ∀ k, k ∈ pending s → k ∈ pending s')
     (h5 : s'.workers = s.workers) (h6 : s'.procs = s.procs)
-    (h7 : exitPc s'.cpc = false → none ∈ s'.workQ → none ∈ s.workQ)
+    (h7 : exitPhasePc s'.cpc = false → none ∈ s'.workQ → none ∈ s.workQ)
     (c1 : rCall s'.cpc = true → s.cfg.factory = true → rCall s.cpc = true ∨ s.rAlive = true)
     (c2 : rStopping s'.cpc = rStopping s.cpc)
-    (c3 : exitPc s'.cpc = exitPc s.cpc)
+    (c3 : exitPhasePc s'.cpc = exitPhasePc s.cpc)
     (c4 : (s'.cpc = .rPutNone ∨ s'.cpc = .rStopSet ∨ s'.cpc = .rJoin) →
       (s.cpc = .rPutNone ∨ s.cpc = .rStopSet ∨ s.cpc = .rJoin) ∨ s.cfg.factory = true) :
     ReplI s' := by
@@ -62,10 +62,10 @@ theorem ReplI_congr' (h : ReplI s) (h1 : s'.cfg = s.cfg) (h2 : s'.rAlive = s.rAl
 
 theorem ReplI_congr (h : ReplI s) (h1 : s'.cfg = s.cfg) (h2 : s'.rAlive = s.rAlive) (h3 : s'.rpc = s.rpc)
     (h4 : s'.replQ = s.replQ) (h5 : s'.workers = s.workers) (h6 : s'.procs = s.procs)
-    (h7 : exitPc s'.cpc = false → none ∈ s'.workQ → none ∈ s.workQ)
+    (h7 : exitPhasePc s'.cpc = false → none ∈ s'.workQ → none ∈ s.workQ)
     (c1 : rCall s'.cpc = true → s.cfg.factory = true → rCall s.cpc = true ∨ s.rAlive = true)
     (c2 : rStopping s'.cpc = rStopping s.cpc)
-    (c3 : exitPc s'.cpc = exitPc s.cpc)
+    (c3 : exitPhasePc s'.cpc = exitPhasePc s.cpc)
     (c4 : (s'.cpc = .rPutNone ∨ s'.cpc = .rStopSet ∨ s'.cpc = .rJoin) →
       (s.cpc = .rPutNone ∨ s.cpc = .rStopSet ∨ s.cpc = .rJoin) ∨ s.cfg.factory = true) :
     ReplI s' :=
@@ -97,7 +97,7 @@ theorem liveCnt_congr (h : s'.workers = s.workers) : liveCnt s' = liveCnt s := b
 
 theorem CntI_congr' (h : CntI s) (h1 : liveCnt s' = liveCnt s) (hp : (pending s').length = (pending s).length)
     (h4 : s'.procs.length = s.procs.length) (h5 : s'.cfg = s.cfg) (h6 : noneCount s'.workQ = noneCount s.workQ)
-    (h7 : exitPc s'.cpc = exitPc s.cpc) (h8 : stopsSent s' = stopsSent s) : CntI s' := by
+    (h7 : exitPhasePc s'.cpc = exitPhasePc s.cpc) (h8 : stopsSent s' = stopsSent s) : CntI s' := by
   obtain ⟨k1, k2, k3, k4⟩ := h
   constructor
   · rw [h1, hp, h4]; exact k1
@@ -286,8 +286,8 @@ theorem LiveInv_startWorker {k : Nat} {w : Worker} (hL : LInv s) (hV : LiveInv s
 theorem rCall_of_rStopping {c : CPc} (h : rStopping c = true) : rCall c = false := by
   cases c <;> simp [rStopping, rCall] at h ⊢
 
-theorem exitPc_of_inCall {c : CPc} (h : inCall c = true) : exitPc c = false := by
-  cases c <;> simp [inCall, exitPc] at h ⊢
+theorem exitPhasePc_of_inCall {c : CPc} (h : inCall c = true) : exitPhasePc c = false := by
+  cases c <;> simp [inCall, exitPhasePc] at h ⊢
 
 theorem CntI_join {t : St} {wid : Nat} (hL : LInv s) (ct : CntI s) (hr : s.rpc = .join wid)
     (h1 : t.workers = s.workers ++ [mkWorker s.cfg s.widCounter]) (h2 : t.rpc = .start s.widCounter)
@@ -298,7 +298,7 @@ theorem CntI_join {t : St} {wid : Nat} (hL : LInv s) (ct : CntI s) (hr : s.rpc =
     · have := hL.rIdle hh; rw [hr] at this; cases this
     · rfl
   obtain ⟨hin, hfac⟩ := hL.rAliveIn hal
-  have hnx := exitPc_of_inCall hin
+  have hnx := exitPhasePc_of_inCall hin
   have hpend : pending s = wid :: s.replQ.filterMap id := by unfold pending; simp [hr]
   obtain ⟨k1, k2, k3, k4⟩ := ct
   have hl : liveCnt t = liveCnt s + 1 := by
@@ -319,7 +319,7 @@ theorem LiveInv_stepR (hL : LInv s) (hV : LiveInv s) (h : stepR s = some s') : L
   · rename_i hal
     have hal' : s.rAlive = true := by simpa using hal
     obtain ⟨hin, hfac⟩ := hL.rAliveIn hal'
-    have hnx := exitPc_of_inCall hin
+    have hnx := exitPhasePc_of_inCall hin
     cases hr : s.rpc <;> simp only [hr] at h
     case idle => cases h
     case get =>
